@@ -7,6 +7,7 @@ import (
 	"bytes"
 	"encoding/hex"
 	"fmt"
+	"math"
 	"strconv"
 	"strings"
 	"time"
@@ -51,6 +52,10 @@ func (q *Command) Sanitize(args ...any) (string, error) {
 			case int64:
 				str = strconv.FormatInt(arg, 10)
 			case float64:
+				// NaN and the infinities have no literal: their text would be read as a column name
+				if math.IsNaN(arg) || math.IsInf(arg, 0) {
+					return "", fmt.Errorf("invalid arg value: %v", arg)
+				}
 				str = strconv.FormatFloat(arg, 'f', -1, 64)
 			case bool:
 				str = strconv.FormatBool(arg)
